@@ -248,7 +248,29 @@ func (w *World) MutateRoots(r *gen.Rand) {
 	n := r.Range(0, 3)
 	for i := 0; i < n; i++ {
 		insts := w.instList()
-		switch r.Intn(13) {
+		switch r.Intn(16) {
+		case 13, 14, 15:
+			// same root, same name: a bare "x.git" next to a work tree "x" (or the other way round) — both map to "x"
+			if len(insts) > 0 {
+				in := gen.Pick(r, insts)
+				_, rel := w.relOf(in.Path)
+				if rel != "." && rel != "" {
+					twin := in.Path + ".git"
+					bare := true
+					if in.Bare {
+						twin, bare = strings.TrimSuffix(in.Path, ".git"), false
+					}
+					if _, err := os.Lstat(twin); err != nil && twin != in.Path {
+						delete(w.Insts, in.Path) // the twin lies next to it, not inside it
+						inside := w.insideRepo(twin)
+						w.Insts[in.Path] = in
+						if !inside {
+							w.place(r, twin, bare)
+							w.logf("same-root twin of %s", in.Path)
+						}
+					}
+				}
+			}
 		case 12:
 			if len(insts) > 0 {
 				in := gen.Pick(r, insts)
